@@ -917,6 +917,18 @@ def gen_c07(tier):
             yield (a, b)
 
 
+def gen_c08_blanks(tier):
+    """documents whose would-be indentation contains blanks other than space and tab: they are content, never indentation"""
+    blanks = ["\xa0", "\x0c", "\x0b", "\u2003", "\u3000", "\x1f", "\u200b"]
+    if tier == "quick":
+        blanks = blanks[:5]
+    for b in blanks:
+        for doc in (f"   {b}foo\n", f"    {b}foo\n", f"{b}    foo\n", f"    a\n    {b}b\n", f"  {b}  foo\n", f"- a\n\n      {b}code\n", f"```\n  {b}x\n```\n", f"- ```\n  {b}code\n  ```\n",
+                    f"  ```\n  {b}code\n  ```\n", f"> {b} quoted\n", f">     {b}code\n", f"    code\n{b}   more\n", f"<div>\n {b}x\n</div>\n", f"1. a\n\n       {b}c\n", f"\t{b}foo\n", f" {b}\tfoo\n"):
+            yield doc
+            yield doc.rstrip("\n")
+
+
 def gen_c16_refs(tier):
     defs = ["[a]: /u\n", "[a]: /v 't'\n", "[A]: /w\n", "[b]: <x y> (t)\n", "[a]: /u\n[a]: /z\n", "[ a  b ]: /ab\n", "[ß]: /ss\n", "[c]:\n/m\n'multi\nline'\n",
             "[d]: /d \"hard\\\nbreak\"\n", "> [q]: /q\n", "- [l]: /l\n", "[e]: /e\nnot a def\n", "", "[ẞ]: /SS\n", "[f]: <a\\\nb>\n", "[g]: a\\\nb\n"]
